@@ -270,3 +270,16 @@ _amend('C19', 'note', 'Not under contract: constructors / frommatrix, the factor
        'Detector constructors (assume-guarantee), slicing and the detector coverage of parallel_beam_geometry are under contract; cone_beam_geometry coverage is a known finding. '
        'Not under contract: geometry constructors / frommatrix, sampling rates of the factories')
 _amend('C20', 'note', 'Not under contract: element() factories', 'astype chains through the real / complex space caches are under contract. Not under contract: element() factories')
+_amend('C03', 'note', 'the sort-based proj_simplex is taken by contract',
+       'BOUNDED native stand-ins (never counted as proved) cover _calls outside the deductive subset: MatrixOperator on every basis vector of domains with 1-3 axes, and one small instance '
+       'of ~40 operator classes / options of tensor_ops / pspace_ops / diff_ops / discr_ops / ufunc_ops (contracts/oppool.py; found 3 repaired defects); the sort-based proj_simplex is taken by contract')
+_amend('C05', 'note', 'Not under contract: MatrixOperator, sampling, block operators',
+       'A BOUNDED native unit (never counted as proved) checks the adjoint identity in the weighted inner products for the operator pool of contracts/oppool.py (MatrixOperator, sampling, '
+       'block operators, difference / resizing operators on boundary-weighted spaces, Fourier / wavelet transforms); 4 open known findings come from it. No deductive contract for: MatrixOperator, sampling, block operators')
+_amend('C06', 'note', 'Not under contract: ufunc operators, Norm/Dist operators, other product-space operators',
+       'A BOUNDED native unit (never counted as proved) compares derivative(x)(d) with central differences for the operator pool of contracts/oppool.py. No deductive contract for: ufunc operators, '
+       'Norm/Dist operators, other product-space operators')
+_amend('C15', 'note', 'Not decided: meshgrid bookkeeping, ndim >= 3, outside the hull',
+       'Nearest interpolation outside the hull of the nodes is under contract. Not decided: linear interpolation outside the hull, meshgrid bookkeeping, ndim >= 3')
+_amend('C20', 'note', 'Not under contract: element() factories',
+       'ProductSpace.element for sequences of proper elements (length check, parts, membership of the result) is under contract. Not under contract: the other element() factories')
